@@ -97,14 +97,16 @@ class ResetMixin(object):
     def reset(self):
         """Reset all OneTimeProperty attributes that may have fired already."""
         instdict = self.__dict__
-        classdict = self.__class__.__dict__
         # To reset them, we simply remove them from the instance dict.  At that
         # point, it's as if they had never been computed.  On the next access,
         # the accessor function from the parent class will be called, simply
         # because that's how the python descriptor protocol works.
-        for mname, mval in classdict.items():
-            if mname in instdict and isinstance(mval, OneTimeProperty):
-                delattr(self, mname)
+        # Walk the class dictionaries of the whole MRO, so that attributes
+        # inherited from a base class are reset as well.
+        for klass in self.__class__.__mro__:
+            for mname, mval in klass.__dict__.items():
+                if mname in instdict and isinstance(mval, OneTimeProperty):
+                    delattr(self, mname)
 
 
 class OneTimeProperty(object):
